@@ -134,6 +134,9 @@ pub fn install_panic_capture() {
             "?".to_string()
         };
         let short: String = msg.chars().take(80).collect();
+        if std::env::var("VERIF_DEBUG").is_ok() {
+            eprintln!("panic captured: {}:{} at {:?}", file, short, info.location());
+        }
         LAST_PANIC.with(|p| *p.borrow_mut() = format!("{}:{}", file, short));
     }));
 }
